@@ -75,21 +75,32 @@ def cmpAtom : IExp → IExp → Ordering
   | pow b _, pow b' _ => baseCmp b b'
   | _, _ => .lt
 
-/-- `fast_compare` on bodies (`x ^ e` or left-nested products of such). -/
+/-- size of the function part: `|power b| = |b| + 2`, `|times x| = |x| + 2` (the `+ 2` is dropped) -/
+def fszI : IExp → Nat
+  | pow b _ => b.size
+  | mul x _ => x.size
+  | _ => 0
+
+/-- `power` < `times` (constant names) -/
+def clsI : IExp → Nat
+  | mul _ _ => 1
+  | _ => 0
+
+/-- two atoms `x ^ e`, `y ^ f` whose sizes and base sizes agree: the bases, then the exponents -/
+def leafI : IExp → IExp → Ordering
+  | pow b e, pow b' e' => ordThen (baseCmp b b') (numCmp e e')
+  | _, _ => .eq
+
+/-- `fast_compare` on bodies (`x ^ e` or left-nested products of such): size, then the function
+parts (`power b` / `times x`: their sizes, `power` < `times`), then -- two products -- `x` against
+`x'` and the arguments, or -- two atoms -- the bases and the exponents. -/
 def bodyCmp : IExp → IExp → Ordering
   | mul x y, mul x' y' =>
-    if (mul x y).size ≠ (mul x' y').size then compare (mul x y).size (mul x' y').size
-    else ordThen (compare x.size x'.size) (ordThen (bodyCmp x x') (bodyCmp y y'))
-  | pow b e, pow b' e' =>
-    if (pow b e).size ≠ (pow b' e').size then compare (pow b e).size (pow b' e').size
-    else ordThen (baseCmp b b') (numCmp e e')
-  | pow b e, mul x y =>
-    if (pow b e).size ≠ (mul x y).size then compare (pow b e).size (mul x y).size
-    else ordThen (compare b.size x.size) .lt       -- `power` < `times`
-  | mul x y, pow b e =>
-    if (mul x y).size ≠ (pow b e).size then compare (mul x y).size (pow b e).size
-    else ordThen (compare x.size b.size) .gt
-  | a, b => compare a.size b.size
+    ordThen (compare (mul x y).size (mul x' y').size)
+      (ordThen (compare x.size x'.size) (ordThen (bodyCmp x x') (bodyCmp y y')))
+  | a, b =>
+    ordThen (compare a.size b.size)
+      (ordThen (compare (fszI a) (fszI b)) (ordThen (compare (clsI a) (clsI b)) (leafI a b)))
 
 def isNum : IExp → Bool
   | num _ => true
@@ -253,6 +264,84 @@ def firstCoeff : IExp → Int
 def intNormEq (a b : IExp) : IExp :=
   let l := stripPow1 (simpFull (sub a b))
   if firstCoeff l < 0 then stripPow1 (simpFull (mul (num (-1)) l)) else l
+
+/-! ### the normal-form shape of `simp_full` -/
+
+def lastF : IExp → IExp
+  | mul _ a => a
+  | t => t
+
+def lastM : IExp → IExp
+  | add _ m => m
+  | t => t
+
+def isAtomPow : IExp → Bool
+  | pow (atom _ _) _ => true
+  | _ => false
+
+/-- a body: `x ^ e` (atomic base) or a left-nested product of such with strictly increasing bases -/
+def isBodyI : IExp → Bool
+  | mul b a => isAtomPow a && isBodyI b && (cmpAtom (lastF b) a == .lt)
+  | t => isAtomPow t
+
+/-- a monomial: a non-zero numeral, or `c * body` with `c ≠ 0` -/
+def isMonoI : IExp → Bool
+  | num z => decide (z ≠ 0)
+  | mul (num c) b => decide (c ≠ 0) && isBodyI b
+  | _ => false
+
+/-- a polynomial: left-nested sum of monomials, strictly increasing under `compare_monomial`
+(numbers first) -/
+def isPolyI : IExp → Bool
+  | add p m => isPolyI p && isMonoI m && (cmpMono (lastM p) m == .lt)
+  | t => isMonoI t
+
+/-- what `simp_full` returns: `0` or a polynomial -/
+def isNFI (t : IExp) : Bool := t == num 0 || isPolyI t
+
+/-- the fragment on which `simp_full` expands everything: powers only of atoms (a power of a
+compound base is left as an atom by the code and is outside the canonicity claim) -/
+def atomicPowers : IExp → Bool
+  | atom _ _ => true
+  | num _ => true
+  | add a b => atomicPowers a && atomicPowers b
+  | sub a b => atomicPowers a && atomicPowers b
+  | mul a b => atomicPowers a && atomicPowers b
+  | neg a => atomicPowers a
+  | pow (atom _ _) _ => true
+  | pow _ _ => false
+
+/-- every atom is the table entry of its rank, no exponent is `0` -/
+def wfI (sh : Nat → Nat) : IExp → Bool
+  | .atom i s => s == sh i
+  | .num _ => true
+  | .add a b => wfI sh a && wfI sh b
+  | .sub a b => wfI sh a && wfI sh b
+  | .mul a b => wfI sh a && wfI sh b
+  | .neg a => wfI sh a
+  | .pow b e => (e != 0) && wfI sh b
+
+def atomsOfI : IExp → List (Nat × Nat)
+  | .atom i s => [(i, s)]
+  | .num _ => []
+  | .add a b => atomsOfI a ++ atomsOfI b
+  | .sub a b => atomsOfI a ++ atomsOfI b
+  | .mul a b => atomsOfI a ++ atomsOfI b
+  | .neg a => atomsOfI a
+  | .pow b _ => atomsOfI b
+
+/-- the size table read off a list of atoms (first occurrence of each rank) -/
+def shOf (l : List (Nat × Nat)) (i : Nat) : Nat :=
+  match l.find? (fun p => p.1 == i) with
+  | some p => p.2
+  | none => 0
+
+/-- the fragment of `int_norm_canonical`, decided by the driver: powers only of atoms, no exponent
+`0`, and atoms determined by their rank (every atom is the entry of its rank in the table read off
+the two terms) -/
+def fragI (a b : IExp) : Bool :=
+  atomicPowers a && atomicPowers b &&
+    wfI (shOf (atomsOfI a ++ atomsOfI b)) a && wfI (shOf (atomsOfI a ++ atomsOfI b)) b
 
 /-- Value in ℤ. -/
 def evalI (ρ : Nat → Int) : IExp → Int
